@@ -1189,7 +1189,7 @@ Proof.
   intros O R. induction R as [|x u R IH].
   - unfold aclause. cbn [base iinit init thr]. unfold idle_thread.
     destruct (next_op_pc (mk Fin 0 0 0 0 0 0 0 (nth 0 progs []) 0)) as [E|[E|[E|E]]]; rewrite E; exact Logic.I.
-  - eapply aclause_step; eauto. apply ireach_linv; auto.
+  - eapply aclause_step; [|exact IH]. apply (ireach_linv l start progs); auto.
 Qed.
 
 Lemma pop_abort_history l start progs x :
@@ -1204,4 +1204,31 @@ Proof.
   unfold aclause, stolen_last in A. split.
   - intros Hpc E. rewrite Hpc in A, L0. destruct L0 as (A1 & A2 & A3 & A4 & A5). rewrite A5. apply A; auto.
   - intros Hpc. rewrite Hpc in A. exact A.
+Qed.
+
+(* helper to discharge owner_only on concrete programs *)
+Lemma owner_only_cons p ts : Forall (Forall is_steal) ts -> owner_only (p :: ts).
+Proof.
+  intros H u Hu. destruct u as [|u]; [congruence|]. cbn [nth].
+  destruct (nth_in_or_default u ts []) as [Hin | E]; [|rewrite E; constructor].
+  rewrite Forall_forall in H. apply H; auto.
+Qed.
+
+Lemma abort_justified_all l start progs x u :
+  owner_only progs -> ireach l start progs x ->
+  let s := base x in
+  (pc (thr s u) = OCas -> top s <> t (thr s u) ->
+     top s = (t (thr s u) + 1)%Z /\ bot s = t (thr s u) /\ content s = [] /\ u = 0%nat /\
+     exists sl, slog x = sl ++ [rv (thr s u)]) /\
+  (pc (thr s u) = OFixL ->
+     top s = (t (thr s u) + 1)%Z /\ bot s = t (thr s u) /\ content s = [] /\ u = 0%nat /\
+     exists sl, slog x = sl ++ [get (arrs s (cur s)) (b (thr s u))]) /\
+  (pc (thr s u) = TCas -> top s <> t (thr s u) -> (t (thr s u) < top s)%Z).
+Proof.
+  intros O R. cbn zeta.
+  pose proof (abort_of_inv (base x) u (l_inv _ x (ireach_linv l start progs x O R))) as (A & B & C).
+  pose proof (pop_abort_history l start progs x O R) as (HA & HB). cbn zeta in HA, HB.
+  split; [|split; [|exact C]].
+  - intros Hpc E. destruct (A Hpc E) as (A1 & A2 & A3 & A4). subst u. repeat split; auto.
+  - intros Hpc. destruct (B Hpc) as (A1 & A2 & A3 & A4). subst u. repeat split; auto.
 Qed.
